@@ -12,6 +12,7 @@ props = [json.loads(l)['id'] for l in open(os.path.join(V, 'properties.jsonl'))]
 meta = json.load(open(os.path.join(V, 'contracts', 'properties.json')))
 na = json.load(open(os.path.join(V, 'contracts', 'not_applicable.json')))
 units = driver.all_units()
+kani_props = set(p for h in json.load(open(os.path.join(V, 'contracts', 'kani_harnesses.json'))) for p in h.get('props', []))
 checks = []
 claimed = [p for p in props if p in meta and meta[p].get('claimed', True)]
 for p in claimed:
@@ -26,7 +27,8 @@ for p in claimed:
         'engine': 'verus',
         'level_claimed': {'category': 'proof', 'text': m['level_text'], 'design_ref': m.get('design_ref', 'DESIGN.md section 5')},
         'level_note': m['level_note'],
-        'technique': 'contract-based deductive verification (Verus, SMT) of the real functions extracted mechanically from /repo on every run; units: ' + ', '.join(us),
+        'technique': (('Kani/CBMC harnesses on the real functions of the crate (complete loop-free proofs over a full input domain where the evidence says so; the others bounded stand-ins, labelled bounded, never counted as proved)' + ('; plus ' if us else '')) if p in kani_props else '')
+                     + ('contract-based deductive verification (Verus, SMT) of the real functions extracted mechanically from /repo on every run; units: ' + ', '.join(us) if us else ''),
     })
 man = {
     'version': 1,
